@@ -144,6 +144,21 @@ let dispatch fn args = match fn, args with
   | "validatePerms", [block; p; emd] ->
     (match validatePermissions ident_fn [] (bytes_of_hex block) (z_of_hex p) (bool_of_str emd) with
      | Ok b -> "ok:" ^ str_of_bool b | Err -> "err")
+  (* passwords R2-R4 *)
+  | "pad32", [pw] -> hex_of_bytes (pad32 (bytes_of_hex pw))
+  | "encKey", [upw; o; p; id; r; emd; l] ->
+    hex_of_bytes (encKey md5 (bytes_of_hex upw) (bytes_of_hex o) (z_of_hex p) (bytes_of_hex id) (z_of_hex r) (bool_of_str emd) (z_of_hex l))
+  | "ownerKey", [opw; upw; r; l] -> hex_of_bytes (ownerKey md5 (bytes_of_hex opw) (bytes_of_hex upw) (z_of_hex r) (z_of_hex l))
+  | "computeO", [opw; upw; r; l] -> res_bytes (compute_o md5 (bytes_of_hex opw) (bytes_of_hex upw) (z_of_hex r) (z_of_hex l))
+  | "computeU", [upw; o; p; id; r; emd; l] ->
+    (match compute_u md5 (bytes_of_hex upw) (bytes_of_hex o) (z_of_hex p) (bytes_of_hex id) (z_of_hex r) (bool_of_str emd) (z_of_hex l) with
+     | Ok (u, k) -> "ok:" ^ hex_of_bytes u ^ "|" ^ hex_of_bytes k | Err -> "err")
+  | "validateUser", [upw; o; u; p; id; r; emd; l] ->
+    (match validateUser md5 (bytes_of_hex upw) (bytes_of_hex o) (bytes_of_hex u) (z_of_hex p) (bytes_of_hex id) (z_of_hex r) (bool_of_str emd) (z_of_hex l) with
+     | Ok (b, k) -> "ok:" ^ str_of_bool b ^ "|" ^ hex_of_bytes k | Err -> "err")
+  | "validateOwner", [opw; upw; o; u; p; id; r; emd; l] ->
+    (match validateOwner md5 (bytes_of_hex opw) (bytes_of_hex upw) (bytes_of_hex o) (bytes_of_hex u) (z_of_hex p) (bytes_of_hex id) (z_of_hex r) (bool_of_str emd) (z_of_hex l) with
+     | Ok (b, k) -> "ok:" ^ str_of_bool b ^ "|" ^ hex_of_bytes k | Err -> "err")
   | "pReported", [req] -> hex_of_z (p_reported (p_written (z_of_hex req)))
   | _ -> failwith ("unknown function " ^ fn)
 let () = main dispatch
